@@ -30,9 +30,12 @@ def mix_params(rng):
 
 def std_dataset(rng, **kw):
     no_unary = kw.pop('no_unary', False)
+    no_idless = kw.pop('no_idless', False)
     kw.setdefault('P', mix_params(rng))
     if no_unary:
         kw['P'] = dict(kw['P'], unary_trees=0.0)
+    if no_idless:
+        kw['P'] = dict(kw['P'], idless_top=0.0)
     if 'maxleaves' not in kw:
         kw['maxleaves'] = rng.choice([3, 4, 5, 6, 8, 8, 10, 12])
     if kw['P'].get('elide', 0) > 0.9 and 'top_positions' not in kw:
@@ -221,10 +224,11 @@ def explore_load(prop, tier, seed, oracle, tags, n_quick, emit=(), with_truth=Fa
                 o.put('load', 'ok'); ob.observe_load(h, o)
                 o.wild_problems = orc.wf_problems(h) + list(o.problems)
                 o.wild_literal = orc.wf_problems(h, literal=True) + list(o.problems)
+                o.wild_always = orc.skipped_levels_single_child(h)
                 ex.res.count('wild_files_loaded')
             except Exception as e:      # noqa
                 o.put('load', 'err:' + ob.err_name(e))
-                o.wild_problems = []; o.wild_literal = []
+                o.wild_problems = []; o.wild_literal = []; o.wild_always = []
                 ex.res.count('wild_files_rejected')
             ex.submit(cid, D, o.tags, ['load', 'genes', 'members', 'forest', 'genomes'], extra=o, hist=False)
             continue
@@ -248,6 +252,8 @@ def explore_load(prop, tier, seed, oracle, tags, n_quick, emit=(), with_truth=Fa
         # WF (C02) + registration exact + genome sizes exact (C04), and "the family realises its history" (C03)
         if D.meta.get('wild'):
             # where the model (= the unchanged loader) yields a well-formed analysis, pyham's objects must satisfy C02
+            if getattr(o, 'wild_always', None):
+                ex.fail(cid, D, o.wild_always[:4])
             if L.get('wf') and L['wf'][0][0] == '1' and getattr(o, 'wild_problems', None):
                 ex.fail(cid, D, ['file outside the history domain, well-formed according to the model: ' + x for x in o.wild_problems[:4]])
             elif L.get('wflit') == ['1'] and getattr(o, 'wild_literal', None):
@@ -449,8 +455,10 @@ def selected_families(D, hog_ids, int_ids, ext_ids):
 def c11(tier, seed):
     ex = Explorer('C11', tier, seed)
     n = budget(tier, 300)
+    carried = None; next_carried = None
     for k in range(n):
-        D = respell(ex.rng, std_dataset(ex.rng, nfam=ex.rng.choice([2, 3, 4, 5, 6])))
+        carried = next_carried
+        D = respell(ex.rng, std_dataset(ex.rng, nfam=ex.rng.choice([2, 3, 4, 5, 6]), no_idless=True))   # filters address families by id
         cid = 'C11-%d' % k
         ex.note_dataset(D)
         full = load_or_fail(ex, cid, D)
@@ -467,9 +475,17 @@ def c11(tier, seed):
         allg = list(decl)
         tids = [tid for _, _, tid in D.families]
         o = ob.Obs(); queries = []; bad = []
-        for fk in range(4 if tier == 'quick' else 8):
+        nflt = 4 if tier == 'quick' else 8
+        for fk in range(nflt + 1):
             kind = ex.rng.choice(['hog', 'int', 'ext', 'union', 'nothing', 'all', 'intid'])
             hog_ids = []; int_ids = []; ext_ids = []
+            f = None
+            if fk == nflt:
+                # the ParserFilter OBJECT used for the previous dataset, applied unchanged to this (different) file
+                if carried is None:
+                    continue
+                f, hog_ids, int_ids, ext_ids = carried
+                kind = 'carried_over_from_previous_file'
             if kind in ('hog', 'union'):
                 hog_ids = [t for t in tids if ex.rng.random() < 0.5]
             if kind in ('int', 'union'):
@@ -481,11 +497,14 @@ def c11(tier, seed):
             if kind == 'all':
                 hog_ids = list(tids)
             ex.res.count('filter_' + kind)
-            f = pyham.ParserFilter()
-            # integer-typed selectors where the id looks like an integer (the API accepts both)
-            f.add_hogs_via_hogId([int(x) if canon_int(x) and ex.rng.random() < 0.5 else x for x in hog_ids])
-            f.add_hogs_via_GeneIntId([int(x) if canon_int(x) and ex.rng.random() < 0.5 else x for x in int_ids])
-            f.add_hogs_via_GeneExtId(ext_ids)
+            if f is None:
+                f = pyham.ParserFilter()
+                # integer-typed selectors where the id looks like an integer (the API accepts both)
+                f.add_hogs_via_hogId([int(x) if canon_int(x) and ex.rng.random() < 0.5 else x for x in hog_ids])
+                f.add_hogs_via_GeneIntId([int(x) if canon_int(x) and ex.rng.random() < 0.5 else x for x in int_ids])
+                f.add_hogs_via_GeneExtId(ext_ids)
+                if kind in ('hog', 'int', 'ext', 'union'):
+                    next_carried = (f, list(hog_ids), list(int_ids), list(ext_ids))
             want_fams, named = selected_families(D, set(hog_ids), set(int_ids), set(ext_ids))
             pfx = 'F%d.' % fk
             queries.append('(filter %d (hog %s) (ext %s) (int %s))' % (fk, ' '.join(map(gen.q, hog_ids)), ' '.join(map(gen.q, ext_ids)), ' '.join(map(gen.q, int_ids))))
@@ -693,6 +712,9 @@ def c19(tier, seed):
     n = budget(tier, 600)
     for k in range(n):
         D = respell(ex.rng, std_dataset(ex.rng, P=dict(ann=0.5, subid=0.5, label=0.4, loft=0.4)))
+        if ex.rng.random() < 0.5:
+            D.groups = gen.add_og_attrs(ex.rng, D.groups)      # `og` attributes next to (or instead of) ids
+            ex.res.count('cases_with_og_attributes')
         cid = 'C19-%d' % k
         ex.note_dataset(D)
         h = load_or_fail(ex, cid, D)
